@@ -174,6 +174,107 @@ def check_rapi(case, out, fail):
         fail("records kept by the renderer differ from the accepted calls", sig="records")
 
 
+HIST_KINDS = {1: "pad", 2: "use_edns", 3: "edns off", 4: "want_dnssec", 5: "ednsflags", 6: "tsig"}
+
+
+def history_impl(am, origin, steps):
+    """ONE Message object whose configuration is CHANGED between renderings (pad, EDNS options / payload / flags,
+    EDNS removed and re-added, want_dnssec, TSIG record attached / detached).  After every change the object is
+    rendered; returned per step: the result, the object's flags, the configuration read back from the object
+    (opt, tsig, pad - attribute access only) and the rendering of a FRESH message configured that way."""
+    import dns.edns
+    try:
+        m = g.mk_message(am, pad=0)
+    except Exception as e:  # noqa
+        return g.exc_code(e)
+    org = None if origin is None else g.N(origin)
+    out = []
+    for st in steps:
+        kind = st[0]
+        try:
+            if kind == 1:
+                m.pad = st[1]
+            elif kind == 2:
+                ttl, payload, options, pad = st[1]
+                m.use_edns(edns=(ttl >> 16) & 0xFF, ednsflags=ttl, payload=payload,
+                           options=[dns.edns.GenericOption(c, bytes(d)) for c, d in options], pad=pad)
+            elif kind == 3:
+                m.use_edns(False)
+            elif kind == 4:
+                m.want_dnssec(bool(st[1]))
+            elif kind == 5:
+                m.ednsflags = st[1]
+            elif kind == 6:
+                if st[1] is None:
+                    m.tsig = None
+                else:
+                    m.tsig = dns.rrset.from_rdata(g.N(st[1][0]), 0, g.mk_tsig_rdata(st[1][1]))
+            lim, prefer = st[2], st[3]
+            cur = g.message_abs(m)
+            pad = int(m.pad)
+            try:
+                r = m.to_wire(origin=org, max_size=lim, prefer_truncation=bool(prefer), want_shuffle=False)
+            except Exception as e:  # noqa
+                r = g.exc_code(e)
+            fresh = g.run_render([am[0], am[1], am[2], cur[3], cur[4]], origin, lim, 0, prefer, pad)
+            out.append([r, int(m.flags), [cur[3], cur[4], pad], fresh])
+        except g.Unmodelled:
+            return out
+        except Exception as e:  # noqa
+            out.append([g.exc_code(e), int(m.flags), None, None])
+            return out
+    return out
+
+
+def gen_history(rng, am):
+    """configuration changes for history_impl; step kinds: 1 pad, 2 use_edns, 3 EDNS off, 4 want_dnssec,
+    5 ednsflags setter, 6 TSIG record attached / detached"""
+    mid = am[0]
+    owners = [rs[0] for s in (1, 2, 3) for rs in am[2][s] if rs[0] and rs[0][-1] == b"" and len(rs[0]) > 1]
+    steps = []
+    pads = [0, 16, 128, 468]
+    seqs = [
+        [[1, 0], [1, 16], [1, 128], [1, 0], [1, 468], [1, 16]],
+        None, None,
+    ]
+    base = rng.choice(seqs)
+    if base is None:
+        base = []
+        for _ in range(rng.choice([4, 6, 8])):
+            r = rng.random()
+            if r < 0.3:
+                base.append([1, rng.choice(pads)])
+            elif r < 0.5:
+                base.append([2, [rng.choice([0, 0x8000, 0x00010000]), rng.choice([512, 1232, 4096]),
+                                      rng.choice([[], [[65001, b"\x01\x02\x03"]], [[65001, b"x"], [65002, bytes(20)]]]),
+                                      rng.choice(pads)]])
+            elif r < 0.58:
+                base.append([3])
+            elif r < 0.7:
+                base.append([4, rng.choice([0, 1])])
+            elif r < 0.8:
+                base.append([5, rng.choice([0, 0x8000, 0x00FF0000])])
+            else:
+                if rng.random() < 0.35:
+                    base.append([6, None])
+                else:
+                    t = g.gen_tsig(rng, g.NamePool(rng, None), mid)
+                    while t is None:
+                        t = g.gen_tsig(rng, g.NamePool(rng, None), mid)
+                    if owners and rng.random() < 0.7:
+                        ow = rng.choice(owners)
+                        t[0] = list(ow) if rng.random() < 0.5 else [b"k"] + list(ow)
+                        while g.wire_len(t[0]) > 255:
+                            t[0] = t[0][1:]
+                    base.append([6, t])
+    if base and base[0][0] == 1 and am[3] is None:
+        base = [[2, [0, 1232, [], 0]]] + base
+    for st in base:
+        st = list(st) + [None] * (2 - len(st))
+        steps.append([st[0], st[1], rng.choice([65535, 65535, 1200, 700]), rng.choice([0, 1, 1])])
+    return steps
+
+
 def residue_message(n, keyname, tsig_rd, with_option):
     """www.example. A + a filler record of n opaque octets; the key name shares a suffix with the owners"""
     ex = [b"example", b""]
@@ -370,6 +471,12 @@ def cases(ctx):
         origin = None if rng.random() < 0.8 else [b"o", b"example", b""]
         mid, flags, ms, ops = g.gen_rseq(rng, origin)
         yield "rseq", [7, origin, mid, flags, ms, ops]
+    # ONE message object whose configuration changes between renderings
+    for i in range(ctx.n(40, 200)):
+        origin = None
+        am = g.gen_query_like(rng, origin, rng.choice(["small", "medium"]), opcode=rng.choice([0, 0, 4]))
+        am[4] = None
+        yield "history", [12, am, origin, gen_history(rng, am)]
     # the Renderer API used directly, through the model as well: reserve / release_reserved / add_opt (with
     # padding arguments) / write_header / _write_tsig next to add_question / add_rrset
     for i in range(ctx.n(120, 500)):
@@ -485,6 +592,9 @@ def impl(case):
     if op == 11:
         _, origin, mid, flags, ms, ops, extra_ = case
         return rapi_impl(origin, mid, flags, ms, ops, extra_)
+    if op == 12:
+        _, am, origin, steps = case
+        return history_impl(am, origin, steps)
     if op == 9:
         _, am, pad, keymode, prefer = case
         try:
@@ -589,6 +699,36 @@ def oracle(ctx, kind, case, out):
         return F
     if op == 11:
         check_rapi(case, out, fail)
+        return F
+    if op == 12:
+        _, am, origin, steps = case
+        if isinstance(out, Err):
+            fail("building the message failed " + out.text)
+            return F
+        for i, (st, res) in enumerate(zip(steps, out)):
+            r, fl, cfg, fresh = res
+            if cfg is None:
+                if isinstance(r, Err):
+                    fail("changing the configuration raised " + r.text, step=i, change=str(st[:2])[:80], sig="exc")
+                break
+            if fl != am[1]:
+                fail("Message.to_wire changed the flags of the message object", step=i, sig="objflags")
+                break
+            if normalize(r) != normalize(fresh):
+                fail("after changing the configuration (%s) the same Message object renders differently from a fresh "
+                     "message configured the same way" % HIST_KINDS.get(st[0], st[0]), step=i, history=str([x[:1] + [str(x[1])[:30]] for x in steps[: i + 1]])[:300],
+                     got=(r.text if isinstance(r, Err) else len(r)), fresh=(fresh.text if isinstance(fresh, Err) else len(fresh)),
+                     sig="history")
+                break
+            if isinstance(r, Err):
+                if r.code not in (20, 103):
+                    fail("rendering raised something else than TooBig: " + r.text, step=i, sig="exc")
+                continue
+            n0 = len(F)
+            check_result([am[0], am[1], am[2], cfg[0], cfg[1]], origin, st[2], st[3], cfg[2], bytes(r),
+                         lambda what, **kw: fail(what, step=i, **kw))
+            if len(F) > n0:
+                break
         return F
     if op == 8:
         _, am, origin, lims, reqp, prefer, pad = case
